@@ -28,16 +28,104 @@ SNIPPETS = [
 ]
 
 
+def gen_program(rnd, depth=3):
+  """A random (a)sync function with nested loops, try blocks, with blocks, comprehensions and jumps."""
+  is_async = rnd.random() < 0.75
+
+  def block(d, in_loop, ind):
+    n = rnd.choice([1, 1, 2, 3])
+    out = []
+    for _ in range(n):
+      out.extend(stmt(d, in_loop, ind))
+    return out or [ind + 'pass']
+
+  def stmt(d, in_loop, ind):
+    kinds = ['expr', 'expr', 'assign', 'return', 'if']
+    if in_loop:
+      kinds += ['continue', 'break', 'continue']
+    if d > 0:
+      kinds += ['for', 'while', 'try', 'with', 'if', 'comp']
+      if is_async:
+        kinds += ['afor', 'afor', 'afor', 'awith', 'acomp', 'acomp', 'await']
+    k = rnd.choice(kinds)
+    I = ind + '  '
+    if k == 'expr':
+      return [ind + rnd.choice(['g(x)', 'x.m()', 'h()', 'yield x' if not is_async or rnd.random() < 0.3 else 'g(x)'])]
+    if k == 'assign':
+      return [ind + 'x = %s' % rnd.choice(['g(x)', 'x or y', '[x, y]', 'x if y else None'])]
+    if k == 'return':
+      return [ind + rnd.choice(['return x', 'return', 'raise E()'])]
+    if k == 'continue':
+      return [ind + 'if %s: continue' % rnd.choice(['x', 'y', 'g(x)'])] if rnd.random() < 0.6 else [ind + 'continue']
+    if k == 'break':
+      return [ind + 'if %s: break' % rnd.choice(['x', 'y'])] if rnd.random() < 0.6 else [ind + 'break']
+    if k == 'await':
+      return [ind + 'x = await g(x)']
+    if k == 'if':
+      r = [ind + 'if x:'] + block(d - 1, in_loop, I)
+      if rnd.random() < 0.5:
+        r += [ind + 'else:'] + block(d - 1, in_loop, I)
+      return r
+    if k in ('for', 'afor'):
+      r = [ind + ('async ' if k == 'afor' else '') + 'for %s in %s:' % (rnd.choice(['i', 'j', 'x']), rnd.choice(['xs', 'g(x)', 'y']))] + block(d - 1, True, I)
+      if rnd.random() < 0.3:
+        r += [ind + 'else:'] + block(d - 1, in_loop, I)
+      return r
+    if k == 'while':
+      return [ind + 'while %s:' % rnd.choice(['x', 'True', 'g(x)'])] + block(d - 1, True, I)
+    if k in ('with', 'awith'):
+      return [ind + ('async ' if k == 'awith' else '') + 'with g(x) as w:'] + block(d - 1, in_loop, I)
+    if k in ('comp', 'acomp'):
+      a = 'async ' if k == 'acomp' else ''
+      return [ind + 'x = %s' % rnd.choice(['[i %sfor i in xs]' % a, '{i: j %sfor i in xs for j in i}' % a, '[i %sfor i in xs if i]' % a,
+                                            '[[j %sfor j in i] for i in xs]' % a])]
+    if k == 'try':
+      r = [ind + 'try:'] + block(d - 1, in_loop, I)
+      shape = rnd.choice(['except', 'finally', 'both', 'else'])
+      if shape in ('except', 'both', 'else'):
+        r += [ind + 'except %s:' % rnd.choice(['E', '(E, F) as e', 'Exception'])] + block(d - 1, in_loop, I)
+      if shape == 'else':
+        r += [ind + 'else:'] + block(d - 1, in_loop, I)
+      if shape in ('finally', 'both'):
+        r += [ind + 'finally:'] + block(d - 1, in_loop, I)
+      return r
+    return [ind + 'pass']
+  body = block(depth, False, '  ')
+  return ('async ' if is_async else '') + 'def f(x, y, xs):\n' + '\n'.join(body) + '\n'
+
+
 def check_code(blocks, opcodes, oc, where, viol):
   """All clauses of C16 on one OrderedCode."""
   order = oc.order
   ops = list(oc.original_opcodes) if hasattr(oc, 'original_opcodes') else None
   ok = True
 
-  def bad(what):
+  def bad(what, cause=None):
     nonlocal ok
     ok = False
-    viol(dict(kind='block-graph', what=what, where=where))
+    viol(dict(kind='block-graph', what=what, where=where, **({'cause': cause} if cause else {})))
+
+  # the 3.12 merge of an END_ASYNC_FOR block into the block of the JUMP_BACKWARD that closes its loop
+  # (_remove_jmp_to_get_anext_and_merge): with two back jumps to one GET_ANEXT (e.g. an async comprehension with a
+  # condition) the same END_ASYNC_FOR block is appended to two blocks -- known finding F16
+  merged_twice = set()
+  allops = []
+  if order and order[0].code:
+    o0 = order[0].code[0]
+    while o0.prev is not None:
+      o0 = o0.prev
+    while o0 is not None:
+      allops.append(o0)
+      o0 = o0.next
+  closers = {}
+  for p_ in allops:
+    t_ = getattr(p_, 'end_async_for_target', None)
+    if t_ is not None:
+      closers[id(t_)] = closers.get(id(t_), 0) + 1
+  for b in order:
+    for k, op in enumerate(b.code):
+      if isinstance(op, opcodes.END_ASYNC_FOR) and closers.get(id(op), 0) >= 2:
+        merged_twice.update(id(o) for o in b.code[k:])
   # blocks non-empty; each instruction of the order in exactly one block
   seen_ops = {}
   for b in order:
@@ -45,7 +133,11 @@ def check_code(blocks, opcodes, oc, where, viol):
       bad('empty block %r' % b.id)
     for op in b.code:
       if id(op) in seen_ops:
-        bad('instruction %d (%s) is in two blocks' % (op.index, op.name))
+        if id(op) in merged_twice:
+          bad('instruction %d (%s) is in two blocks (END_ASYNC_FOR block merged into two loop-closing blocks)' % (op.index, op.name),
+              cause='F16-end-async-for-block-merged-twice')
+        else:
+          bad('instruction %d (%s) is in two blocks' % (op.index, op.name))
       seen_ops[id(op)] = b
   # execution order lists every block once
   if len({id(b) for b in order}) != len(order):
@@ -80,6 +172,8 @@ def check_code(blocks, opcodes, oc, where, viol):
     for a, c in zip(b.code, b.code[1:]):
       if a.next is not c and not (a.next is not None and isinstance(c, type(a.next)) and False):
         # blocks merged by the 3.12 async surgery may skip removed instructions
+        if isinstance(c, opcodes.END_ASYNC_FOR) and isinstance(a.next, opcodes.JUMP_BACKWARD):
+          continue   # the loop-closing JUMP_BACKWARD was removed and the END_ASYNC_FOR block appended (documented merge)
         if not any(isinstance(o, (opcodes.SEND, opcodes.GET_ANEXT, opcodes.END_SEND, opcodes.CLEANUP_THROW)) for o in b.code):
           bad('next-link broken inside block %d between %d and %d' % (b.id, a.index, c.index))
   return ok
@@ -116,7 +210,13 @@ def check_cover(blocks, opcodes, dis_code, where, viol):
   for o in ops:
     c = cnt[id(o)]
     if c > 1:
-      viol(dict(kind='cover', cause='instruction-in-two-blocks', what='%s at %d is in %d blocks' % (o.name, o.index, c), where=where))
+      # by design when one END_ASYNC_FOR block closes two back jumps: known finding F16
+      homes = [b for b in bl if any(x is o for x in b.code)]
+      ncl = lambda x: sum(1 for p_ in ops if getattr(p_, 'end_async_for_target', None) is x)
+      f16 = all(any(isinstance(x, opcodes.END_ASYNC_FOR) and ncl(x) >= 2 and any(y is o for y in b.code[k:])
+                    for k, x in enumerate(b.code)) for b in homes)
+      viol(dict(kind='cover', cause='F16-end-async-for-block-merged-twice' if f16 else 'instruction-in-two-blocks',
+                what='%s at %d is in %d blocks' % (o.name, o.index, c), where=where))
     if c == 0:
       cur.append(o)
     elif cur:
@@ -166,12 +266,12 @@ def main():
   violations = []
 
   def viol(v):
-    if v.get('cause', '').startswith('F10'):
-      if any(w.get('cause') == v['cause'] for w in violations):
+    if v.get('cause', '').startswith(('F10', 'F16')):
+      if any(w.get('cause') == v['cause'] and w.get('kind') == v.get('kind') for w in violations):
         return
       violations.append(v)
       return
-    if len([w for w in violations if not w.get('cause', '').startswith('F10')]) < 10:
+    if len([w for w in violations if not w.get('cause', '').startswith(('F10', 'F16'))]) < 10:
       violations.append(v)
   ver = (3, 12)
   files = sorted(glob.glob(os.path.join(STDLIB, '*.py')))
@@ -183,6 +283,11 @@ def main():
     for sub in ('email', 'json', 'logging', 'unittest', 'importlib', 'collections', 'multiprocessing', 'xml/etree', 'http'):
       files += sorted(glob.glob(os.path.join(STDLIB, sub, '*.py')))
   srcs = [('snippet%d' % i, s) for i, s in enumerate(SNIPPETS)]
+  import random  # pylint: disable=g-import-not-at-top
+  rnd = random.Random(payload.get('seed', 0))
+  ngen = 400 if tier == 'quick' else 6000
+  for i in range(ngen):
+    srcs.append(('generated%d' % i, gen_program(rnd, depth=rnd.choice([2, 3, 3, 4]))))
   for f in files:
     try:
       srcs.append((os.path.relpath(f, STDLIB), open(f, encoding='utf-8').read()))
@@ -232,7 +337,7 @@ def main():
   print(json.dumps(dict(
       violations=violations,
       bounded=[dict(function='pyc.compile_src -> opcodes.build_opcodes -> blocks.process_code (whole pipeline, incl. the 3.12 async surgery)',
-                    bound='%d modules (CPython 3.12 stdlib sample + %d generated snippets), every code object; all clauses of C16 evaluated' % (nmod, len(SNIPPETS)),
+                    bound='%d modules (CPython 3.12 stdlib sample + %d hand-written snippets + %d randomly generated (a)sync functions with nested loops / try / with / comprehensions / jumps), every code object; all clauses of C16 evaluated' % (nmod, len(SNIPPETS), ngen),
                     cases=ncode),
                dict(function='blocks._split_bytecode contract evaluated natively under its precondition',
                     bound='same code objects without SEND/GET_ANEXT', cases=nsplit)],
